@@ -183,6 +183,9 @@ type seqStats struct {
 	dupRegistration, ambiguous, sublist, pathOrigin, prefOrigin bool
 	keys, legacy, multiRawInvoke, nobodyCompatible, rootQuery   bool
 	excluded                                                    int
+	// the classes added with the odd strings / derived paths / sizes
+	oddString, emptyString, twins, twinsInList, oddHit     bool
+	bigList, repeatInList, bigNotif, longPath, crowd, many bool
 }
 
 func (s seqStats) labels() []string {
@@ -215,7 +218,71 @@ func (s seqStats) labels() []string {
 	add(s.nobodyCompatible, "call-with-no-compatible-registration")
 	add(s.rootQuery, "registration-at-root")
 	add(s.excluded > 0, "known-class-excluded")
+	add(s.oddString, "index-string-with-joiner-or-odd")
+	add(s.emptyString, "empty-index-string")
+	add(s.twins, "twin-paths-registered")
+	add(s.twinsInList, "twin-paths-in-one-list")
+	add(s.oddHit, "odd-registration-compatible-with-a-call")
+	add(s.bigList, "list-with-20plus-paths")
+	add(s.repeatInList, "list-repeats-a-path")
+	add(s.bigNotif, "notification-with-5plus-entries")
+	add(s.longPath, "path-with-6plus-elements")
+	add(s.crowd, "path-registered-by-3plus-clients")
+	add(s.many, "50plus-live-registrations")
 	return l
+}
+
+// sizeFlags notes the size/alphabet classes of the registered paths of a scenario.
+type regCensus struct {
+	all     [][]string
+	clients map[string]map[int]bool
+}
+
+func (rc *regCensus) add(client int, p []string) {
+	rc.all = append(rc.all, p)
+	if rc.clients == nil {
+		rc.clients = map[string]map[int]bool{}
+	}
+	k := key(p)
+	if rc.clients[k] == nil {
+		rc.clients[k] = map[int]bool{}
+	}
+	rc.clients[k][client] = true
+}
+
+func (rc *regCensus) flags() (odd, empty, twin, long, crowd bool) {
+	for _, p := range rc.all {
+		if anyOdd(p) {
+			odd = true
+		}
+		for _, e := range p {
+			if e == "" {
+				empty = true
+			}
+		}
+		if len(p) >= 6 {
+			long = true
+		}
+	}
+	for _, cs := range rc.clients {
+		if len(cs) >= 3 {
+			crowd = true
+		}
+	}
+	return odd, empty, twins(rc.all), long, crowd
+}
+
+// listFlags: does one list name 20+ paths, repeat a path, contain twins?
+func listFlags(l *SubList) (big, repeat, twin bool) {
+	var qs [][]string
+	n := 0
+	for _, g := range l.Subs {
+		if g != nil {
+			n++
+			qs = append(qs, refQuery(l.Prefix, g))
+		}
+	}
+	return n >= 20, len(refQueries(l)) < n, twins(qs)
 }
 
 func gpathFlags(st *seqStats, g *GPath) {
@@ -250,6 +317,12 @@ func runSeq(sc *Scenario, open map[string]bool) (st seqStats, err error) {
 		}
 		return clients[id]
 	}
+	var rc regCensus
+	defer func() {
+		odd, empty, twin, long, crowd := rc.flags()
+		st.oddString, st.emptyString, st.twins, st.crowd = st.oddString || odd, st.emptyString || empty, twin, crowd
+		st.longPath = st.longPath || long
+	}()
 	// clients whose every registration was removed (for the label only)
 	everRegistered := map[int][]string{}
 	removedAt := map[string]bool{} // path keys where some client's registration was removed
@@ -345,6 +418,20 @@ func runSeq(sc *Scenario, open map[string]bool) (st seqStats, err error) {
 		if !anyCompat {
 			st.nobodyCompatible = true
 		}
+		if len(mod.live) >= 50 {
+			st.many = true
+		}
+		if len(entries) >= 5 {
+			st.bigNotif = true
+		}
+		for _, p := range entries {
+			if anyOdd(p) {
+				st.oddString = true
+			}
+			if len(p) >= 6 {
+				st.longPath = true
+			}
+		}
 		// classes of compatibility exercised, and the survivor label
 		for k := range mod.live {
 			q := unkey(k.path)
@@ -373,6 +460,9 @@ func runSeq(sc *Scenario, open map[string]bool) (st seqStats, err error) {
 				if removedAt[k.path] {
 					st.sharedPathSurvivor = true
 				}
+				if anyOdd(q[:n]) {
+					st.oddHit = true
+				}
 			}
 		}
 		return nil
@@ -389,6 +479,7 @@ func runSeq(sc *Scenario, open map[string]bool) (st seqStats, err error) {
 			if len(op.Path) == 0 {
 				st.rootQuery = true
 			}
+			rc.add(op.Client, op.Path)
 			rm := m.AddQuery(clonePath(op.Path), client(op.Client))
 			mod.add(op.Client, [][]string{op.Path}, rm)
 			everRegistered[op.Client] = append(everRegistered[op.Client], k.path)
@@ -408,8 +499,12 @@ func runSeq(sc *Scenario, open map[string]bool) (st seqStats, err error) {
 				}
 			}
 			paths, rm := registerList(m, op.List, client(op.Client))
+			if big, rep, tw := listFlags(op.List); big || rep || tw {
+				st.bigList, st.repeatInList, st.twinsInList = st.bigList || big, st.repeatInList || rep, st.twinsInList || tw
+			}
 			seen := map[string]bool{}
 			for _, p := range paths {
+				rc.add(op.Client, p)
 				k := pairKey{op.Client, key(p)}
 				if mod.live[k] > 0 || seen[k.path] {
 					st.dupRegistration = true
